@@ -38,7 +38,7 @@ def directed(rng: random.Random) -> dict:
     body.append({"k": "assign", "n": "cnA", "e": E(cval) if cval >= 0 else E("-", -cval)})
     kind = rng.choice(["if_const", "if_undef", "for_bounds", "if_loopvar", "nested", "macro_if", "macro_for", "for_label", "else_chain",
                        "if_defines", "if_defines_label", "macro_if_defines", "for_shadow", "for_after", "macro_defined_in_if",
-                       "macro_defined_in_empty_loop", "loop_state_per_iteration"])
+                       "macro_defined_in_empty_loop", "loop_state_per_iteration", "scope_in_loop"])
     db = lambda *es: {"k": "data", "d": "db", "es": [e if isinstance(e, list) else E(e) for e in es]}  # noqa: E731
     if kind == "if_const":
         st = {"k": "if", "c": rng.choice([E("cnA"), E("cnA", "&", 1), E("cnA", "+", 1), E("cnA", "-", cval)]), "t": [db(1)], "e": [db(2)] if rng.random() < 0.6 else None}
@@ -112,6 +112,12 @@ def directed(rng: random.Random) -> dict:
             {"k": "if", "c": E("itK", "&", 1), "t": [db(E(0xA0, "+", "itK"))], "e": [db(E("itK"))]},
             {"k": "assign", "n": "sq", "e": E("itK", "*", "itK")}, db(E("sq")),
             {"k": "for", "v": "itJ", "a": E(0), "b": E("itK"), "body": [db(E("itJ", "+", 0x40))]}]}]
+    elif kind == "scope_in_loop":
+        # each iteration is its own scope: a named scope inside it exports to that iteration only
+        body += [{"k": "for", "v": "itS", "a": E(0), "b": E(rng.choice([2, 3])), "body": [
+            {"k": "data", "d": "dw", "es": [E("rec.tail")]},
+            {"k": "scope", "n": "rec", "b": [{"k": "label", "n": "head"}, db(E("itS")), {"k": "label", "n": "tail"}]},
+            {"k": "data", "d": "dw", "es": [E("rec.head"), E("rec.tail")]}]}]
     elif kind == "for_after":
         body += [{"k": "for", "v": "itJ", "a": E(1), "b": E(3), "body": [db(E("itJ"))]},
                  {"k": "if", "c": E("itJ"), "t": [db(0x01)], "e": [db(0x02)]}]
